@@ -4,9 +4,13 @@
 From JV Require Import Lib.Base Model.Kwargs Model.KwargsGuard Model.C13KwargsFx Spec.KwargsSpec
   Proofs.KwargsProofs.
 
-Lemma callee_frame_allfx f P fr k : callee_frame_fx all_fixes f P fr k = callee_frame Interp f P fr k.
+Lemma callee_frame_allfx f P fr k :
+  callee_agree f P fr k = true ->
+  callee_frame_fx all_fixes f P fr k = callee_frame Resolver f P fr k.
 Proof.
-  destruct k as [|i|c|m]; reflexivity.
+  intro Hag. destruct k as [|i|c|m|c]; try reflexivity.
+  - rewrite <- (callee_agree_eq f P fr (KClass c) Hag). reflexivity.
+  - rewrite <- (callee_agree_eq f P fr (KMeth m) Hag). reflexivity.
 Qed.
 
 Lemma filter_removed_noop g ps pre :
@@ -92,7 +96,7 @@ Proof.
       - destruct (find_call_unique k npos given pre _ _ c np g Hf Hsu Hin) as (-> & -> & ->).
         destruct Hfc as (Hag & Hcf).
         assert (Hfr : callee_frame_fx all_fixes f' P fr k = callee_frame Resolver f' P fr k).
-        { rewrite callee_frame_allfx. apply callee_agree_eq. exact Hag. }
+        { apply callee_frame_allfx. exact Hag. }
         split; [exact Hfr|].
         destruct (callee_frame Resolver f' P fr k) as [[fr0|]|e] eqn:Ecf; [| |contradiction].
         + destruct Hcf as (Hk0 & R' & Hr & H3 & _).
